@@ -222,6 +222,8 @@ def obs_events(chk):
 def run(chk):
     core.run_jobs(chk, jobs(chk))
     obs_events(chk)
+    from .. import session
+    session.run_for(chk, 'C14')      # Session.tla: results do not depend on earlier calls
 
 
 def replay_case(chk, sig, case):
